@@ -372,6 +372,16 @@ class Node(ModelElement):
 
         node_id = self.topo.graph_model.find_ns_by_name(parent_node_id=self.node_id,
                                                         nsname=name)
+        # (sub-interfaces are connected to services on their own)
+        for i in [x for top in self.network_services[name].interface_list for x in (top,) + tuple(top.interface_list)]:
+            # disconnect if connected to a network service
+            peers = i.get_peers(itype=InterfaceType.ServicePort)
+            if peers:
+                if len(peers) == 1:
+                    # disconnect from its parent service
+                    self.topo.get_parent_element(peers[0]).disconnect_interface(i)
+                else:
+                    raise TopologyException(f'Interface {i.name} has more than one peer, this is a model error.')
         self.topo.graph_model.remove_ns_with_cps_and_links(node_id=node_id)
 
     def remove_storage(self, name: str) -> None:
